@@ -60,6 +60,8 @@ def tokens(src):
                 k = "name"
         out.append((k, t, min(nl, 2)))
         nl = 0
+    if nl >= 2 and out:
+        out.append(("eof", "", 2))  # blank lines at the end of the module are layout too
     return out
 
 
@@ -79,6 +81,8 @@ def render(toks, sep=" ", nl="\n", indent=False):
     depth = 0
     prev = None
     for k, t, n in toks:
+        if prev is None and n:
+            out.append(nl * min(n, 2))  # leading blank lines are layout too
         if prev is not None:
             if is_comment(prev) and n == 0:
                 n = 1
